@@ -1,0 +1,115 @@
+//! Verification hooks. Compiled only with `--features verif`.
+//!
+//! Nothing in here changes behaviour: the functions wrap or read existing
+//! crate-private items so that an external harness can observe the internal
+//! `Word` structure and bound the number of loop iterations of a call.
+
+use std::cell::{Cell, RefCell};
+
+pub use crate::word::Word;
+pub use crate::syll::{Syllable, StressKind};
+
+use crate::{Error, RuleGroup, Segment};
+use crate::rule::Rule;
+
+pub const N_SITES: usize = 1024;
+
+thread_local! {
+    static BUDGET: Cell<u64> = const { Cell::new(0) };
+    static TICKS:  Cell<u64> = const { Cell::new(0) };
+    static SITES:  RefCell<Vec<u64>> = RefCell::new(vec![0; N_SITES]);
+}
+
+/// Payload of the unwind raised when the step budget of the current thread is spent.
+#[derive(Debug, Clone)]
+pub struct BudgetExhausted {
+    /// the loop site that ticked most often
+    pub dominant_site: u32,
+    /// the site that ticked last
+    pub last_site: u32,
+    pub ticks: u64,
+}
+
+/// Sets the step budget for the current thread (0 = unlimited) and resets the counters.
+pub fn set_budget(n: u64) {
+    BUDGET.with(|b| b.set(n));
+    TICKS.with(|t| t.set(0));
+    SITES.with(|s| s.borrow_mut().iter_mut().for_each(|x| *x = 0));
+}
+
+/// Number of ticks since the last `set_budget`.
+pub fn ticks() -> u64 { TICKS.with(|t| t.get()) }
+
+#[inline]
+pub fn tick(site: u32) {
+    let budget = BUDGET.with(|b| b.get());
+    if budget == 0 { return }
+    let n = TICKS.with(|t| { let n = t.get() + 1; t.set(n); n });
+    SITES.with(|s| s.borrow_mut()[site as usize % N_SITES] += 1);
+    if n > budget {
+        let dominant = SITES.with(|s| {
+            let s = s.borrow();
+            let mut best = 0usize;
+            for (i, c) in s.iter().enumerate() { if *c > s[best] { best = i } }
+            best as u32
+        });
+        BUDGET.with(|b| b.set(0));
+        std::panic::resume_unwind(Box::new(BudgetExhausted { dominant_site: dominant, last_site: site, ticks: n }));
+    }
+}
+
+fn parse_alias(into: &[String], from: &[String]) -> Result<(Vec<crate::alias::Transformation>, Vec<crate::alias::Transformation>), Error> {
+    crate::parse_aliases(into, from)
+}
+
+/// `normalise` + `Word::new`, exactly as `run` does for each space-separated word.
+pub fn parse_word(text: &str, alias_into: &[String]) -> Result<Word, Error> {
+    let (into, _) = parse_alias(alias_into, &[])?;
+    Word::new(crate::normalise(text), &into)
+}
+
+/// `Word::render`, exactly as `run` does for each word of the result.
+pub fn render_word(word: &Word, alias_from: &[String]) -> Result<String, Error> {
+    let (_, from) = parse_alias(&[], alias_from)?;
+    Ok(word.render(&from))
+}
+
+/// Builds a word from syllables given as (segments, stress, tone).
+pub fn word_from_parts(parts: Vec<(Vec<Segment>, StressKind, u16)>) -> Word {
+    let mut w = Word::new(String::new(), &[]).expect("empty word parses");
+    for (segs, stress, tone) in parts {
+        let mut s = Syllable::new();
+        s.segments = segs.into_iter().collect();
+        s.stress = stress;
+        s.tone = tone;
+        w.syllables.push(s);
+    }
+    w
+}
+
+/// Parsed rule groups.
+pub struct Compiled(Vec<Vec<Rule>>);
+
+pub fn compile(groups: &[RuleGroup]) -> Result<Compiled, Error> {
+    Ok(Compiled(crate::parse_rule_groups(groups)?))
+}
+
+impl Compiled {
+    /// The word after each rule group, applied as `apply_rule_groups` applies them.
+    pub fn apply_groups(&self, word: &Word) -> Result<Vec<Word>, Error> {
+        let mut out = Vec::with_capacity(self.0.len());
+        let mut res_word = word.clone();
+        for rule_group in &self.0 {
+            for rule in rule_group {
+                res_word = rule.apply(res_word)?;
+            }
+            out.push(res_word.clone());
+        }
+        Ok(out)
+    }
+
+    /// Number of parsed (non-blank) rules per group.
+    pub fn rule_counts(&self) -> Vec<usize> {
+        self.0.iter().map(|g| g.len()).collect()
+    }
+}
